@@ -572,6 +572,13 @@ func (w *L1World) opCreateBridge(period time.Duration, mustSucceed bool) {
 	creator := w.anyUser()
 	n := w.nCreated + 1
 	proposer, challenger := sim.NewAccount(fmt.Sprintf("proposer%d", n)), sim.NewAccount(fmt.Sprintf("challenger%d", n))
+	if !mustSucceed && w.rng.Chance(25) {
+		// a creator who cannot afford the registration fee names a well-funded proposer and challenger: only the creator
+		// ever pays (so the creation fails while the fee is not zero)
+		creator = sim.NewAccount(fmt.Sprintf("penniless-creator%d", n))
+		w.env.L1.Fund(proposer.Addr, sdk.NewCoin("uinit", math.NewInt(1_000_000)))
+		w.env.L1.Fund(challenger.Addr, sdk.NewCoin("uinit", math.NewInt(1_000_000)))
+	}
 	before := w.observe()
 	id, res := w.env.CreateBridge(creator, proposer, challenger, period, nil)
 	w.logf("create_bridge creator=%s period=%s -> %s id=%d %s", creator.Name, period, res.Class, id, res.ErrString())
@@ -752,6 +759,11 @@ func (w *L1World) fabricate(b *wBridge, n int) []Withdrawal {
 	var out []Withdrawal
 	for i := 0; i < n; i++ {
 		denom := mon.Pick(w.rng, w.env.Denoms)
+		if w.rng.Chance(8) {
+			// a withdrawal naming, as its L1 denom, the string that is the L2 name of a token deposited into this bridge
+			// (a valid L1 denom; the escrow simply holds none of it unless somebody sent it there)
+			denom = ref.L2Denom(b.id, mon.Pick(w.rng, w.env.Denoms))
+		}
 		wd := Withdrawal{BridgeID: b.id, Seq: b.nextL2, From: fmt.Sprintf("l2user%d", w.rng.Intn(5)), To: w.anyUser().String(), Denom: denom, Amount: uint64(1 + w.rng.Intn(3000))}
 		b.nextL2++
 		out = append(out, wd)
@@ -1122,6 +1134,11 @@ func (w *L1World) deliverClaim(b *wBridge, m *ophosttypes.MsgFinalizeTokenWithdr
 		}
 		if w.mons.C02 {
 			w.run.Check("C02.paid_at_most_once", !v.paidBefore, "c02.double_payment", w.trace(), "withdrawal %x on bridge %d paid a second time", v.leaf[:6], m.BridgeId)
+			// "Claimed answers true exactly for withdrawals that have been paid": an accepted finalization moved the money
+			if to, err := sdk.AccAddressFromBech32(m.To); err == nil && !to.Equals(ophosttypes.BridgeAddress(m.BridgeId)) {
+				got := w.env.L1.BK.GetBalance(w.env.L1.Ctx, to, m.Amount.Denom).Amount.Sub(before.balances[to.String()].AmountOf(m.Amount.Denom))
+				w.run.Check("C02.claimed_query_agrees", got.Equal(m.Amount.Amount), "c02.claimed_but_not_paid", w.trace(), "finalization of %s accepted (the withdrawal now counts as claimed) but the recipient received %s", m.Amount, got)
+			}
 		}
 		if tb != nil {
 			tb.paid[v.leaf]++
@@ -1411,6 +1428,12 @@ func (w *L1World) Run() {
 		}
 		if w.rng.Chance(6) {
 			w.opDiscarded()
+		}
+		if w.rng.Chance(2) {
+			// the chain is restarted from its own exported genesis; the history goes on
+			ok := migrateL1(w.env)
+			w.logf("chain exported and restarted from its genesis -> imported=%v", ok)
+			w.checkQuiescent()
 		}
 		w.run.State(sim.Digest(w.env.L1.Dump(ophosttypes.StoreKey)))
 	}
